@@ -927,20 +927,18 @@ func (f *Field) SetBit(rowID, colID uint64, t *time.Time) (changed bool, err err
 func (f *Field) ClearBit(rowID, colID uint64) (changed bool, err error) {
 	viewName := viewStandard
 
-	// Retrieve view. Exit if it doesn't exist.
-	view, present := f.viewMap[viewName]
-	if !present {
-		return changed, errors.Wrap(err, "clearing missing view")
-
-	}
-
-	// Clear non-time bit.
-	if v, err := view.clearBit(rowID, colID); err != nil {
-		return changed, errors.Wrap(err, "clearing on view")
-	} else if v {
-		changed = v
-	}
-	if len(f.viewMap) == 1 { // assuming no time views
+	// Clear non-time bit. A field created with noStandardView has no
+	// standard view, but its time views still have to be cleared.
+	if view, present := f.viewMap[viewName]; present {
+		if v, err := view.clearBit(rowID, colID); err != nil {
+			return changed, errors.Wrap(err, "clearing on view")
+		} else if v {
+			changed = v
+		}
+		if len(f.viewMap) == 1 { // assuming no time views
+			return changed, nil
+		}
+	} else if !f.options.NoStandardView {
 		return changed, nil
 	}
 	lastViewNameSize := 0
@@ -991,6 +989,9 @@ func (f *Field) allTimeViewsSortedByQuantum() (me []*view) {
 		}
 	}
 	me = me[:i]
+	if len(me) == 0 {
+		return me
+	}
 	year := strings.Index(me[0].name, "_") + 4
 	month := year + 2
 	day := month + 2
